@@ -1,9 +1,1039 @@
-//! group `writer` — stub (not built yet).
-#![allow(unused)]
+//! group `writer` — C12, C13: src/message/writer.rs through the public `Writer` API.
+//!
+//! One case = one whole writer session:
+//!
+//!   w <buflen> <limit> <mode> <fill> <op>;<op>;…;fin[:<machex>]
+//!
+//! with result `ok <status>;<status>;… <msghex> <machex|->` (or `err:Truncation` when
+//! `Writer::new` fails).  Every session of the contract-respecting stream is followed by
+//!
+//!   waudit <buflen> <limit> <mode> <fill> <ops> <statuses> <msghex> <machex|->
+//!
+//! which embeds the implementation's output so that the Lean driver can decode and audit the
+//! *implementation's* octets with the independent decoder (result `ok` when it re-runs to the
+//! same output).
+//!
+//! ops (fields separated by `:`; names and RDATA as wire hex, `-` = empty):
+//!   id:<n> qr:<b> aa:<b> tc:<b> rd:<b> ra:<b> oc:<n> rc:<n> xr:<n> lim:<n> m:<s|c|d>
+//!   q:<qname>:<qtype>:<qclass>
+//!   an|ns|ar:<hint>:<owner>:<type>:<class>:<ttl>:<rdata>:<hv>          add_*_rr
+//!   ans|nss|ars:<hint>:<owner>:<type>:<class>:<ttl>:<rdata,rdata…>:<hv> add_*_rrset
+//!       hint = n | q | o | r | x<slot>.<idx>      hv = - | <slot>
+//!   clr   edns:<payload>   ut:<time48hex>   g (all getters)
+//!   tsig:<mode>:<keyname>:<time48hex>:<fudge>:<origid>:<error>:<servertime48hex>
+//!       mode = u.<algname> | q.<alg>.<key> | r.<alg>.<key>.<reqmac> | s.<alg>.<key>.<priormac>
+//!   tpl:<buflen>   tpls:<buflen>:<priormac>       into_template + try_from_template…
 use crate::common::*;
+use quandary::class::Class;
+use quandary::message::tsig::{Algorithm, PreparedTsigRr};
+use quandary::message::writer::{
+    CompressionMode, Error, Hint, HintPointerVec, HintedName, Template, TsigMode,
+};
+use quandary::message::{ExtendedRcode, Opcode, Qclass, Qtype, Question, Rcode, Writer};
+use quandary::name::{LowercaseName, Name};
+use quandary::rr::rdata::TimeSigned;
+use quandary::rr::{Rdata, RdataSetOwned, Ttl, Type};
+use std::panic::{catch_unwind, AssertUnwindSafe};
 
-pub fn run(_op: &str, _a: &[&str]) -> Option<String> {
-    None
+// ------------------------------------------------------------------------------------------
+// session executor
+// ------------------------------------------------------------------------------------------
+
+struct Sess {
+    bufs: Vec<*mut [u8]>,
+    cur: *mut [u8],
+    fill: u8,
+    w: Option<Writer<'static>>,
+    hvs: Vec<HintPointerVec>,
 }
 
-pub fn gen(_rng: &mut Rng, _thorough: bool, _em: &mut Emitter) {}
+impl Drop for Sess {
+    fn drop(&mut self) {
+        self.w = None;
+        for b in self.bufs.drain(..) {
+            unsafe { drop(Box::from_raw(b)) };
+        }
+    }
+}
+
+fn err_s(e: Error) -> String {
+    format!("err:{:?}", e)
+}
+
+fn res_s(r: Result<(), Error>) -> String {
+    match r {
+        Ok(()) => "ok".into(),
+        Err(e) => err_s(e),
+    }
+}
+
+fn name_of(h: &str) -> Option<Box<Name>> {
+    Name::try_from_uncompressed_all(&unhex(h)?).ok()
+}
+
+fn six(h: &str) -> Option<[u8; 6]> {
+    let v = unhex(h)?;
+    v.try_into().ok()
+}
+
+fn alg_of(s: &str) -> Option<Algorithm> {
+    match s {
+        "1" => Some(Algorithm::HmacSha1),
+        "256" => Some(Algorithm::HmacSha256),
+        _ => None,
+    }
+}
+
+impl Sess {
+    fn alloc(&mut self, len: usize) -> &'static mut [u8] {
+        let b: Box<[u8]> = vec![self.fill; len].into_boxed_slice();
+        let p = Box::into_raw(b);
+        self.bufs.push(p);
+        self.cur = p;
+        unsafe { &mut *p }
+    }
+
+    fn new(buflen: usize, limit: usize, mode: &str, fill: u8) -> Result<Sess, String> {
+        let mut s = Sess { bufs: vec![], cur: std::ptr::slice_from_raw_parts_mut(std::ptr::null_mut(), 0), fill, w: None, hvs: vec![] };
+        let buf = s.alloc(buflen);
+        match Writer::new(buf, limit) {
+            Ok(mut w) => {
+                w.set_compression_mode(match mode {
+                    "c" => CompressionMode::CasePreserving,
+                    "d" => CompressionMode::Disabled,
+                    _ => CompressionMode::Standard,
+                });
+                s.w = Some(w);
+                Ok(s)
+            }
+            Err(e) => Err(err_s(e)),
+        }
+    }
+
+    fn hv(&mut self, slot: usize) -> &mut HintPointerVec {
+        while self.hvs.len() <= slot {
+            self.hvs.push(HintPointerVec::new());
+        }
+        &mut self.hvs[slot]
+    }
+
+    fn hinted<'n>(&mut self, hint: &str, name: &'n Name) -> Option<HintedName<'n>> {
+        Some(match hint {
+            "n" => HintedName::new(Hint::None, name),
+            "q" => HintedName::new(Hint::Qname, name),
+            "o" => HintedName::new(Hint::MostRecentOwner, name),
+            "r" => HintedName::new(Hint::MostRecentNameInRdata, name),
+            _ => {
+                let rest = hint.strip_prefix('x')?;
+                let (a, b) = rest.split_once('.')?;
+                let slot: usize = a.parse().ok()?;
+                let idx: usize = b.parse().ok()?;
+                let v = self.hv(slot).clone();
+                HintedName::from_hint_pointer_vec(&v, idx, name)
+            }
+        })
+    }
+
+    /// Execute one op (not `fin`). `None` = malformed op.
+    fn op(&mut self, op: &str) -> Option<String> {
+        let f: Vec<&str> = op.split(':').collect();
+        let b = |s: &str| s == "1";
+        macro_rules! w {
+            () => {
+                self.w.as_mut()?
+            };
+        }
+        Some(match (f[0], f.len()) {
+            ("id", 2) => { w!().set_id(f[1].parse().ok()?); "ok".into() }
+            ("qr", 2) => { w!().set_qr(b(f[1])); "ok".into() }
+            ("aa", 2) => { w!().set_aa(b(f[1])); "ok".into() }
+            ("tc", 2) => { w!().set_tc(b(f[1])); "ok".into() }
+            ("rd", 2) => { w!().set_rd(b(f[1])); "ok".into() }
+            ("ra", 2) => { w!().set_ra(b(f[1])); "ok".into() }
+            ("oc", 2) => { w!().set_opcode(Opcode::try_from(f[1].parse::<u8>().ok()?).ok()?); "ok".into() }
+            ("rc", 2) => { w!().set_rcode(Rcode::try_from(f[1].parse::<u8>().ok()?).ok()?); "ok".into() }
+            ("xr", 2) => res_s(w!().set_extended_rcode(ExtendedRcode::from(f[1].parse::<u16>().ok()?))),
+            ("lim", 2) => { w!().set_limit(f[1].parse().ok()?); "ok".into() }
+            ("m", 2) => {
+                w!().set_compression_mode(match f[1] {
+                    "s" => CompressionMode::Standard,
+                    "c" => CompressionMode::CasePreserving,
+                    "d" => CompressionMode::Disabled,
+                    _ => return None,
+                });
+                "ok".into()
+            }
+            ("q", 4) => {
+                let q = Question {
+                    qname: name_of(f[1])?,
+                    qtype: Qtype::from(f[2].parse::<u16>().ok()?),
+                    qclass: Qclass::from(f[3].parse::<u16>().ok()?),
+                };
+                res_s(w!().add_question(&q))
+            }
+            ("an" | "ns" | "ar", 8) => {
+                let owner = name_of(f[2])?;
+                let ty = Type::from(f[3].parse::<u16>().ok()?);
+                let cl = Class::from(f[4].parse::<u16>().ok()?);
+                let ttl = Ttl::from(f[5].parse::<u32>().ok()?);
+                let rd = unhex(f[6])?;
+                let rdata: &Rdata = rd.as_slice().try_into().ok()?;
+                let hn = self.hinted(f[1], &owner)?;
+                let mut tmp;
+                let hv: Option<&mut HintPointerVec> = if f[7] == "-" { None } else {
+                    let slot: usize = f[7].parse().ok()?;
+                    tmp = std::mem::take(self.hv(slot));
+                    Some(&mut tmp)
+                };
+                let w = self.w.as_mut()?;
+                let (r, hv) = match f[0] {
+                    "an" => { let mut hv = hv; (w.add_answer_rr(hn, ty, cl, ttl, rdata, hv.as_deref_mut()), hv) }
+                    "ns" => { let mut hv = hv; (w.add_authority_rr(hn, ty, cl, ttl, rdata, hv.as_deref_mut()), hv) }
+                    _ => { let mut hv = hv; (w.add_additional_rr(hn, ty, cl, ttl, rdata, hv.as_deref_mut()), hv) }
+                };
+                if let Some(v) = hv {
+                    let slot: usize = f[7].parse().ok()?;
+                    self.hvs[slot] = std::mem::take(v);
+                }
+                res_s(r)
+            }
+            ("ans" | "nss" | "ars", 8) => {
+                let owner = name_of(f[2])?;
+                let ty = Type::from(f[3].parse::<u16>().ok()?);
+                let cl = Class::from(f[4].parse::<u16>().ok()?);
+                let ttl = Ttl::from(f[5].parse::<u32>().ok()?);
+                let rds: Vec<Vec<u8>> = f[6].split(',').map(unhex).collect::<Option<_>>()?;
+                let set = build_set(cl, ty, &rds)?;
+                let hn = self.hinted(f[1], &owner)?;
+                let mut tmp;
+                let hv: Option<&mut HintPointerVec> = if f[7] == "-" { None } else {
+                    let slot: usize = f[7].parse().ok()?;
+                    tmp = std::mem::take(self.hv(slot));
+                    Some(&mut tmp)
+                };
+                let w = self.w.as_mut()?;
+                let (r, hv) = match f[0] {
+                    "ans" => { let mut hv = hv; (w.add_answer_rrset(hn, ty, cl, ttl, &set, hv.as_deref_mut()), hv) }
+                    "nss" => { let mut hv = hv; (w.add_authority_rrset(hn, ty, cl, ttl, &set, hv.as_deref_mut()), hv) }
+                    _ => { let mut hv = hv; (w.add_additional_rrset(hn, ty, cl, ttl, &set, hv.as_deref_mut()), hv) }
+                };
+                if let Some(v) = hv {
+                    let slot: usize = f[7].parse().ok()?;
+                    self.hvs[slot] = std::mem::take(v);
+                }
+                res_s(r)
+            }
+            ("clr", 1) => { w!().clear_rrs(); "ok".into() }
+            ("edns", 2) => res_s(w!().set_edns(f[1].parse().ok()?)),
+            ("ut", 2) => res_s(w!().update_time_signed(TimeSigned::from(six(f[1])?))),
+            ("tsig", 8) => {
+                let m: Vec<&str> = f[1].split('.').collect();
+                let mode = match (m[0], m.len()) {
+                    ("u", 2) => {
+                        let n: Box<LowercaseName> = name_of(m[1])?.into();
+                        TsigMode::Unsigned { algorithm: n }
+                    }
+                    ("q", 3) => TsigMode::Request { algorithm: alg_of(m[1])?, key: unhex(m[2])?.into() },
+                    ("r", 4) => TsigMode::Response { algorithm: alg_of(m[1])?, key: unhex(m[2])?.into(), request_mac: unhex(m[3])?.into() },
+                    ("s", 4) => TsigMode::Subsequent { algorithm: alg_of(m[1])?, key: unhex(m[2])?.into(), prior_mac: unhex(m[3])?.into() },
+                    _ => return None,
+                };
+                let rr = PreparedTsigRr {
+                    key_name: name_of(f[2])?.into(),
+                    time_signed: TimeSigned::from(six(f[3])?),
+                    fudge: f[4].parse().ok()?,
+                    original_id: f[5].parse().ok()?,
+                    error: ExtendedRcode::from(f[6].parse::<u16>().ok()?),
+                    server_time: TimeSigned::from(six(f[7])?),
+                };
+                res_s(w!().set_tsig(mode, rr))
+            }
+            ("tpl", 2) | ("tpls", 3) => {
+                let n: usize = f[1].parse().ok()?;
+                let old_len = unsafe { (&*self.cur).len() };
+                let t: Template = self.w.take()?.into_template();
+                let buf = self.alloc(n);
+                let r = if f[0] == "tpl" {
+                    Writer::try_from_template(buf, &t)
+                } else {
+                    Writer::try_from_template_as_tsig_subsequent(buf, &t, unhex(f[2])?.into())
+                };
+                match r {
+                    Ok(w) => { self.w = Some(w); "ok".into() }
+                    Err(e) => {
+                        let buf = self.alloc(old_len);
+                        self.w = Some(Writer::try_from_template(buf, &t).expect("fallback template"));
+                        err_s(e)
+                    }
+                }
+            }
+            ("g", 1) => {
+                let w = self.w.as_ref()?;
+                format!(
+                    "g={}.{}{}{}{}{}.{}.{}.{}.{}.{}.{}.{}",
+                    w.id(), w.qr() as u8, w.aa() as u8, w.tc() as u8, w.rd() as u8, w.ra() as u8,
+                    u8::from(w.opcode()), u8::from(w.rcode()), u16::from(w.extended_rcode()),
+                    w.qdcount(), w.ancount(), w.nscount(), w.arcount()
+                )
+            }
+            _ => return None,
+        })
+    }
+
+    fn finish(&mut self) -> Option<(Vec<u8>, Option<Box<[u8]>>)> {
+        let w = self.w.take()?;
+        let (len, mac) = w.finish_with_mac();
+        let buf = unsafe { &*self.cur };
+        Some((buf[..len].to_vec(), mac))
+    }
+}
+
+fn build_set(cl: Class, ty: Type, rds: &[Vec<u8>]) -> Option<RdataSetOwned> {
+    let mut refs: Vec<&Rdata> = Vec::new();
+    for r in rds {
+        refs.push(r.as_slice().try_into().ok()?);
+    }
+    RdataSetOwned::from_iter(cl, ty, refs.into_iter())
+}
+
+/// run a complete session line; result text as documented above
+fn exec(buflen: usize, limit: usize, mode: &str, fill: u8, ops: &str) -> String {
+    let mut s = match Sess::new(buflen, limit, mode, fill) {
+        Ok(s) => s,
+        Err(e) => return e,
+    };
+    let mut st: Vec<String> = Vec::new();
+    for op in ops.split(';') {
+        if op == "fin" || op.starts_with("fin:") {
+            return match catch_unwind(AssertUnwindSafe(|| s.finish())) {
+                Ok(Some((msg, mac))) => {
+                    st.push("ok".into());
+                    format!("ok {} {} {}", st.join(";"), hex(&msg), mac.map_or("-".to_string(), |m| hex(&m)))
+                }
+                Ok(None) => "bad-op".into(),
+                Err(_) => {
+                    st.push("panic".into());
+                    format!("ok {} - -", st.join(";"))
+                }
+            };
+        }
+        match catch_unwind(AssertUnwindSafe(|| s.op(op))) {
+            Ok(Some(r)) => st.push(r),
+            Ok(None) => return "bad-op".into(),
+            Err(_) => {
+                st.push("panic".into());
+                std::mem::forget(s.w.take());
+                return format!("ok {} - -", st.join(";"));
+            }
+        }
+    }
+    "bad-op".into()
+}
+
+/// finished messages of the prefixes that end before each `clr` op, followed by `last`,
+/// joined by `|` (what `waudit` carries: every segment of the session can then be decoded)
+fn with_prefix_msgs(buflen: usize, limit: usize, mode: &str, fill: u8, ops: &[&str], last: &str) -> String {
+    let mut out: Vec<String> = Vec::new();
+    for (i, op) in ops.iter().enumerate() {
+        if *op == "clr" {
+            let mut pre: Vec<&str> = ops[..i].to_vec();
+            pre.push("fin");
+            let r = exec(buflen, limit, mode, fill, &pre.join(";"));
+            let f: Vec<&str> = r.split(' ').collect();
+            out.push(if f.len() == 4 && f[0] == "ok" { f[2].to_string() } else { "-".to_string() });
+        }
+    }
+    out.push(last.to_string());
+    out.join("|")
+}
+
+/// the `waudit` line for a session whose `w` line is `w <head>` with result `ok <st> <msg> <mac>`
+fn audit_line(head: &str, result: &str) -> Option<String> {
+    let h: Vec<&str> = head.split(' ').collect();
+    let r: Vec<&str> = result.split(' ').collect();
+    if h.len() != 5 || r.len() != 4 || r[0] != "ok" || r[2] == "-" {
+        return None;
+    }
+    let (bl, li, fi) = (h[0].parse().ok()?, h[1].parse().ok()?, h[2 + 1].parse().ok()?);
+    let ops: Vec<&str> = h[4].split(';').collect();
+    let msgs = with_prefix_msgs(bl, li, h[2], fi, &ops, r[2]);
+    Some(format!("waudit {} {} {} {}", head, r[1], msgs, r[3]))
+}
+
+pub fn run(op: &str, a: &[&str]) -> Option<String> {
+    match (op, a) {
+        ("w", [buflen, limit, mode, fill, ops]) => {
+            let (Ok(bl), Ok(li), Ok(fi)) = (buflen.parse::<usize>(), limit.parse::<usize>(), fill.parse::<u8>()) else {
+                return Some("bad-op".into());
+            };
+            Some(exec(bl, li, mode, fi, ops))
+        }
+        ("waudit", [buflen, limit, mode, fill, ops, st, msg, mac]) => {
+            let (Ok(bl), Ok(li), Ok(fi)) = (buflen.parse::<usize>(), limit.parse::<usize>(), fill.parse::<u8>()) else {
+                return Some("bad-op".into());
+            };
+            let now = exec(bl, li, mode, fi, ops);
+            let last = msg.rsplit('|').next().unwrap_or("-");
+            let embedded = format!("ok {} {} {}", st, last, mac);
+            Some(if now == embedded { "ok".into() } else { format!("stale {}", now) })
+        }
+        _ => None,
+    }
+}
+
+// ------------------------------------------------------------------------------------------
+// generators
+// ------------------------------------------------------------------------------------------
+
+const WORDS: [&str; 14] = ["a", "b", "www", "mail", "ns1", "ns2", "example", "com", "net", "org", "x", "sub", "_tcp", "host"];
+
+fn flip_case(rng: &mut Rng, l: &mut [u8]) {
+    for c in l.iter_mut() {
+        if c.is_ascii_alphabetic() && rng.chance(1, 3) {
+            *c ^= 0x20;
+        }
+    }
+}
+
+fn gen_label(rng: &mut Rng) -> Vec<u8> {
+    match rng.below(40) {
+        0 => (0..63).map(|_| b'a' + rng.below(3) as u8).collect(),
+        1 => (0..rng.range(40, 63)).map(|_| b'k').collect(),
+        2 => vec![0xc0, 0x0c],                  // label data that looks like a pointer
+        3 => (0..rng.range(1, 5)).map(|_| rng.byte()).collect(),
+        _ => rng.pick(&WORDS).as_bytes().to_vec(),
+    }
+}
+
+fn wire_of(labels: &[Vec<u8>]) -> Vec<u8> {
+    let mut w = Vec::new();
+    for l in labels {
+        w.push(l.len() as u8);
+        w.extend_from_slice(l);
+    }
+    w.push(0);
+    w
+}
+
+
+/// per-session pool of names with shared suffixes and case variants
+struct Pool {
+    suffixes: Vec<Vec<Vec<u8>>>,
+    recent: Vec<Vec<u8>>,
+}
+
+impl Pool {
+    fn new(rng: &mut Rng) -> Pool {
+        let n = rng.range(1, 3);
+        let mut suffixes = Vec::new();
+        for _ in 0..n {
+            let k = rng.range(1, 3);
+            suffixes.push((0..k).map(|_| gen_label(rng)).collect());
+        }
+        Pool { suffixes, recent: vec![] }
+    }
+
+    fn name(&mut self, rng: &mut Rng) -> Vec<u8> {
+        let w = match rng.below(20) {
+            0 => vec![0],
+            1 | 2 | 3 if !self.recent.is_empty() => {
+                // a recent name again, possibly in another case
+                let mut w = rng.pick(&self.recent).clone();
+                if rng.chance(1, 2) {
+                    recase(rng, &mut w);
+                }
+                w
+            }
+            4 if !self.recent.is_empty() => {
+                // a recent name with one more label in front, or its parent
+                let w = rng.pick(&self.recent).clone();
+                if rng.chance(1, 2) && w.len() > 1 {
+                    w[(w[0] as usize + 1)..].to_vec()
+                } else {
+                    let l = gen_label(rng);
+                    let mut v = vec![l.len() as u8];
+                    v.extend_from_slice(&l);
+                    v.extend_from_slice(&w);
+                    v
+                }
+            }
+            5 => {
+                // long name (close to 255 octets)
+                let mut labels: Vec<Vec<u8>> = Vec::new();
+                let mut total = 1;
+                loop {
+                    let l: Vec<u8> = (0..rng.range(20, 63)).map(|_| b'a' + rng.below(2) as u8).collect();
+                    if total + l.len() + 1 > 255 { break; }
+                    total += l.len() + 1;
+                    labels.push(l);
+                }
+                wire_of(&labels)
+            }
+            6 => {
+                // many one-octet labels
+                let n = rng.range(10, 127);
+                wire_of(&(0..n).map(|_| vec![b'a' + rng.below(2) as u8]).collect::<Vec<_>>())
+            }
+            _ => {
+                let mut labels: Vec<Vec<u8>> = (0..rng.below(3)).map(|_| gen_label(rng)).collect();
+                let suf = rng.pick(&self.suffixes).clone();
+                labels.extend(suf);
+                if rng.chance(1, 3) {
+                    for l in labels.iter_mut() { flip_case(rng, l); }
+                }
+                wire_of(&labels)
+            }
+        };
+        let w = if w.len() > 255 || Name::try_from_uncompressed_all(&w).is_err() { vec![0] } else { w };
+        if self.recent.len() < 12 { self.recent.push(w.clone()); } else { let i = rng.below(12); self.recent[i] = w.clone(); }
+        w
+    }
+}
+
+fn recase(rng: &mut Rng, w: &mut [u8]) {
+    let mut i = 0;
+    while i < w.len() && w[i] != 0 {
+        let l = w[i] as usize;
+        flip_case(rng, &mut w[i + 1..i + 1 + l]);
+        i += l + 1;
+    }
+}
+
+/// the generator's own copy of the RDATA layout table (RFC 1035 §3.3, RFC 2782): positions of
+/// embedded names, used to track the "most recent name in RDATA" and hint-vector contents
+#[derive(Clone, Copy)]
+enum Fld { Name, Fixed(usize) }
+
+fn layout(ty: u16, cl: u16) -> &'static [Fld] {
+    match (ty, cl) {
+        (2 | 3 | 4 | 5 | 7 | 8 | 9 | 12, _) => &[Fld::Name],
+        (1, 3) => &[Fld::Name],
+        (6, _) | (14, _) => &[Fld::Name, Fld::Name],
+        (15, _) => &[Fld::Fixed(2), Fld::Name],
+        (33, 1) => &[Fld::Fixed(6), Fld::Name],
+        _ => &[],
+    }
+}
+
+/// names embedded in `rd` according to `layout` (None = does not parse)
+fn rdata_names(ty: u16, cl: u16, rd: &[u8]) -> Option<Vec<Vec<u8>>> {
+    let mut pos = 0;
+    let mut out = Vec::new();
+    for f in layout(ty, cl) {
+        match f {
+            Fld::Fixed(n) => { if rd.len() < pos + n { return None; } pos += n; }
+            Fld::Name => {
+                let (n, k) = Name::try_from_uncompressed(&rd[pos..]).ok()?;
+                out.push(n.wire_repr().to_vec());
+                pos += k;
+            }
+        }
+    }
+    Some(out)
+}
+
+fn gen_rdata(rng: &mut Rng, pool: &mut Pool, ty: u16, cl: u16) -> Vec<u8> {
+    let mut rd = Vec::new();
+    let lay = layout(ty, cl);
+    for f in lay {
+        match f {
+            Fld::Fixed(n) => for _ in 0..*n { rd.push(rng.byte()); },
+            Fld::Name => rd.extend_from_slice(&pool.name(rng)),
+        }
+    }
+    match (ty, cl) {
+        (6, _) => for _ in 0..20 { rd.push(rng.byte()); },
+        (1, 3) => for _ in 0..2 { rd.push(rng.byte()); },
+        (1, 1) => for _ in 0..4 { rd.push(rng.byte()); },
+        (28, _) => for _ in 0..16 { rd.push(rng.byte()); },
+        (16, _) => {
+            let n = match rng.below(12) { 0 => rng.range(200, 255), 1 => 0, _ => rng.range(1, 20) };
+            rd.push(n as u8);
+            for _ in 0..n { rd.push(b'a' + rng.below(26) as u8); }
+        }
+        _ if lay.is_empty() => {
+            // unknown / nameless type: arbitrary octets, sometimes containing something that looks
+            // like a compressed name
+            let n = match rng.below(10) { 0 => 0, 1 => rng.range(30, 300), _ => rng.range(1, 12) };
+            for _ in 0..n { rd.push(rng.byte()); }
+            if rng.chance(1, 4) { rd.extend_from_slice(&pool.name(rng)); }
+            if rng.chance(1, 8) { rd.extend_from_slice(&[0xc0, 0x0c]); }
+        }
+        _ => {}
+    }
+    // malformed variants
+    match rng.below(40) {
+        0 if !rd.is_empty() => { let k = rng.below(rd.len()); rd.truncate(k); }
+        1 => rd.extend_from_slice(&[rng.byte(), rng.byte()]),      // trailing octets after the name
+        2 if !rd.is_empty() => { let k = rng.below(rd.len()); rd[k] = *rng.pick(&[0u8, 64, 0xc0, 0xff, 1]); }
+        _ => {}
+    }
+    rd
+}
+
+fn gen_type_class(rng: &mut Rng) -> (u16, u16) {
+    let ty = match rng.below(24) {
+        0 | 1 | 2 => 2, 3 | 4 => 5, 5 => 12, 6 | 7 => 15, 8 | 9 => 6, 10 => 14,
+        11 | 12 => 33, 13 | 14 => 1, 15 => 16, 16 => 28,
+        17 => *rng.pick(&[3u16, 4, 7, 8, 9]),
+        18 => *rng.pick(&[10u16, 11, 13, 41, 250, 39, 18, 17]),   // NULL WKS HINFO OPT TSIG DNAME AFSDB RP
+        19 => 65280 + rng.below(10) as u16,
+        20 => rng.below(65536) as u16,
+        _ => 2,
+    };
+    let cl = match rng.below(12) { 0 | 1 => 3, 2 => 4, 3 => 255, 4 => rng.below(65536) as u16, _ => 1 };
+    (ty, cl)
+}
+
+/// abstract tracking of what the documented hint contract allows
+#[derive(Default)]
+struct Track {
+    qname: Option<Vec<u8>>,
+    owner: Option<Vec<u8>>,
+    in_rdata: Option<Vec<u8>>,
+    slots: Vec<Option<Vec<Vec<u8>>>>,   // None = poisoned / never to be used again
+    n_questions: usize,
+    std_mode: bool,
+}
+
+struct SessionGen<'r> {
+    rng: &'r mut Rng,
+    pool: Pool,
+    s: Sess,
+    ops: Vec<String>,
+    st: Vec<String>,
+    tr: Track,
+    violate: bool,
+    buflen: usize,
+    dead: bool,
+    section: u8,
+}
+
+impl<'r> SessionGen<'r> {
+    fn push(&mut self, op: String) -> String {
+        let r = match catch_unwind(AssertUnwindSafe(|| self.s.op(&op))) {
+            Ok(Some(r)) => r,
+            Ok(None) => panic!("generator produced a malformed op: {}", op),
+            Err(_) => { self.dead = true; std::mem::forget(self.s.w.take()); "panic".to_string() }
+        };
+        self.ops.push(op);
+        self.st.push(r.clone());
+        r
+    }
+
+    fn pick_hint(&mut self, owner: &mut Vec<u8>) -> String {
+        let rng = &mut *self.rng;
+        if self.violate {
+            return match rng.below(8) {
+                0 => "q".into(), 1 => "o".into(), 2 => "r".into(),
+                3 | 4 => format!("x{}.{}", rng.below(self.tr.slots.len() + 1), rng.below(4)),
+                _ => "n".into(),
+            };
+        }
+        // contract-respecting: choose a hint, then make the owner name agree with it
+        match rng.below(10) {
+            0 | 1 => { if let Some(q) = &self.tr.qname { *owner = q.clone(); if rng.chance(1, 3) { recase(rng, owner); } } "q".into() }
+            2 | 3 => { if let Some(o) = &self.tr.owner { *owner = o.clone(); if rng.chance(1, 3) { recase(rng, owner); } } "o".into() }
+            4 => { if let Some(o) = &self.tr.in_rdata { *owner = o.clone(); if rng.chance(1, 3) { recase(rng, owner); } } "r".into() }
+            5 | 6 => {
+                let live: Vec<usize> = (0..self.tr.slots.len()).filter(|i| self.tr.slots[*i].as_ref().map_or(false, |v| !v.is_empty())).collect();
+                if live.is_empty() { return "n".into(); }
+                let sl = *rng.pick(&live);
+                let v = self.tr.slots[sl].as_ref().unwrap();
+                let idx = rng.below(v.len().min(16));
+                *owner = v[idx].clone();
+                if rng.chance(1, 3) { recase(rng, owner); }
+                format!("x{}.{}", sl, idx)
+            }
+            _ => "n".into(),
+        }
+    }
+
+    fn pick_hv(&mut self) -> String {
+        let rng = &mut *self.rng;
+        if self.violate {
+            return if rng.chance(1, 2) { "-".into() } else { format!("{}", rng.below(self.tr.slots.len() + 1)) };
+        }
+        match rng.below(4) {
+            0 => {
+                // a fresh slot
+                self.tr.slots.push(Some(vec![]));
+                format!("{}", self.tr.slots.len() - 1)
+            }
+            1 => {
+                let live: Vec<usize> = (0..self.tr.slots.len()).filter(|i| self.tr.slots[*i].is_some()).collect();
+                if live.is_empty() { "-".into() } else { format!("{}", rng.pick(&live)) }
+            }
+            _ => "-".into(),
+        }
+    }
+
+    fn add_rr(&mut self) {
+        let sec = {
+            let rng = &mut *self.rng;
+            if rng.chance(1, 20) { rng.below(3) as u8 + 1 } else {
+                if self.section < 3 && rng.chance(1, 4) { self.section += 1; }
+                self.section.max(1)
+            }
+        };
+        let (ty, cl) = gen_type_class(self.rng);
+        let mut owner = self.pool.name(self.rng);
+        let hint = self.pick_hint(&mut owner);
+        let ttl: u32 = match self.rng.below(10) { 0 => 0, 1 => 0x7fff_ffff, 2 => 0x8000_0000, 3 => 0xffff_ffff, 4 => self.rng.next() as u32, _ => self.rng.below(100000) as u32 };
+        let hv = self.pick_hv();
+        let set = self.rng.chance(3, 10);
+        let secname = ["", "an", "ns", "ar"][sec as usize];
+        let (op, rds): (String, Vec<Vec<u8>>) = if set {
+            let n = match self.rng.below(8) { 0 => 1, 1 => self.rng.range(5, 20), _ => self.rng.range(2, 4) };
+            let mut rds: Vec<Vec<u8>> = (0..n).map(|_| gen_rdata(self.rng, &mut self.pool, ty, cl)).collect();
+            // the set de-duplicates: list what it will iterate
+            let built = catch_unwind(AssertUnwindSafe(|| build_set(Class::from(cl), Type::from(ty), &rds)));
+            match built {
+                Ok(Some(set)) => { rds = set.iter().map(|r| r.octets().to_vec()).collect(); }
+                _ => { rds.truncate(1); }
+            }
+            (format!("{}s:{}:{}:{}:{}:{}:{}:{}", secname, hint, hex(&owner), ty, cl, ttl,
+                     rds.iter().map(|r| hex(r)).collect::<Vec<_>>().join(","), hv), rds)
+        } else {
+            let rd = gen_rdata(self.rng, &mut self.pool, ty, cl);
+            (format!("{}:{}:{}:{}:{}:{}:{}:{}", secname, hint, hex(&owner), ty, cl, ttl, hex(&rd), hv), vec![rd])
+        };
+        let r = self.push(op);
+        let slot: Option<usize> = hv.parse().ok();
+        if r == "ok" {
+            if sec > self.section { self.section = sec; }
+            self.tr.owner = Some(owner);
+            let mut names = Vec::new();
+            for rd in &rds {
+                if let Some(ns) = rdata_names(ty, cl, rd) { names.extend(ns); }
+            }
+            if let Some(last) = names.last() { self.tr.in_rdata = Some(last.clone()); }
+            if let Some(sl) = slot {
+                if sl < self.tr.slots.len() {
+                    if let Some(v) = self.tr.slots[sl].as_mut() { v.extend(names); }
+                }
+            }
+        } else if let Some(sl) = slot {
+            // a failed call may have pushed pointers into rolled-back space: never use this vector again
+            if sl < self.tr.slots.len() { self.tr.slots[sl] = None; }
+        }
+    }
+
+    fn header_op(&mut self) {
+        let rng = &mut *self.rng;
+        let op = match rng.below(9) {
+            0 => format!("id:{}", rng.below(65536)),
+            1 => format!("qr:{}", rng.below(2)),
+            2 => format!("aa:{}", rng.below(2)),
+            3 => format!("tc:{}", rng.below(2)),
+            4 => format!("rd:{}", rng.below(2)),
+            5 => format!("ra:{}", rng.below(2)),
+            6 => format!("oc:{}", rng.below(16)),
+            7 => format!("rc:{}", rng.below(16)),
+            _ => "g".to_string(),
+        };
+        self.push(op);
+    }
+
+    fn xr_op(&mut self) {
+        let rng = &mut *self.rng;
+        let v = match rng.below(10) {
+            0 => 4095, 1 => 4096, 2 => 2048, 3 => 2047, 4 => rng.range(2048, 4095), 5 => rng.range(4096, 65535),
+            6 => rng.below(16), _ => rng.below(4096),
+        };
+        self.push(format!("xr:{}", v));
+    }
+
+    fn tsig_op(&mut self) {
+        let key_name = { let mut n = self.pool.name(self.rng); n.make_ascii_lowercase(); n };
+        let rng = &mut *self.rng;
+        let key: Vec<u8> = (0..rng.range(1, 40)).map(|_| rng.byte()).collect();
+        let mac: Vec<u8> = (0..*rng.pick(&[0usize, 10, 20, 32])).map(|_| rng.byte()).collect();
+        let alg = *rng.pick(&["1", "256"]);
+        let mode = match rng.below(8) {
+            0 => format!("q.{}.{}", alg, hex(&key)),
+            1 => format!("r.{}.{}.{}", alg, hex(&key), hex(&mac)),
+            2 => format!("s.{}.{}.{}", alg, hex(&key), hex(&mac)),
+            3 => "u.0b686d61632d73686132353600".to_string(),
+            _ => { let mut a = self.pool.name(rng); a.make_ascii_lowercase(); format!("u.{}", hex(&a)) }
+        };
+        let rng = &mut *self.rng;
+        let t: Vec<u8> = (0..6).map(|_| rng.byte()).collect();
+        let t2: Vec<u8> = (0..6).map(|_| rng.byte()).collect();
+        let error = match rng.below(6) { 0 => 18, 1 => 16, 2 => 17, 3 => rng.below(65536), _ => 0 };
+        let (fudge, oid) = (rng.below(65536), rng.below(65536));
+        self.push(format!("tsig:{}:{}:{}:{}:{}:{}:{}", mode, hex(&key_name), hex(&t), fudge, oid, error, hex(&t2)));
+    }
+
+    fn question(&mut self) {
+        let qn = self.pool.name(self.rng);
+        let rng = &mut *self.rng;
+        let qt = match rng.below(5) { 0 => 255, 1 => 252, 2 => rng.below(65536), _ => *rng.pick(&[1usize, 2, 5, 15, 28, 6]) };
+        let qc = match rng.below(6) { 0 => 255, 1 => 3, 2 => rng.below(65536), _ => 1 };
+        let r = self.push(format!("q:{}:{}:{}", hex(&qn), qt, qc));
+        if r == "ok" {
+            if self.tr.n_questions == 0 { self.tr.qname = Some(qn); }
+            self.tr.n_questions += 1;
+        }
+    }
+
+    fn clear(&mut self) {
+        self.push("clr".to_string());
+        self.tr.owner = None;
+        self.tr.in_rdata = None;
+        for s in self.tr.slots.iter_mut() { *s = None; }
+        self.section = 0;
+    }
+}
+
+struct Shape {
+    buflen: usize,
+    limit: usize,
+    mode: &'static str,
+    fill: u8,
+    violate: bool,
+    n_ops: usize,
+}
+
+fn gen_session(rng: &mut Rng, sh: &Shape, em: &mut Emitter, stats: &mut Stats) {
+    let s = match Sess::new(sh.buflen, sh.limit, sh.mode, sh.fill) {
+        Ok(s) => s,
+        Err(e) => {
+            em.emit(&format!("w {} {} {} {} fin", sh.buflen, sh.limit, sh.mode, sh.fill), &e);
+            return;
+        }
+    };
+    let pool = Pool::new(rng);
+    let mut g = SessionGen { rng, pool, s, ops: vec![], st: vec![], tr: Track::default(), violate: sh.violate,
+                             buflen: sh.buflen, dead: false, section: 0 };
+    g.tr.std_mode = sh.mode == "s";
+    // prologue: header, EDNS/TSIG early in most sessions
+    let early_edns = g.rng.chance(1, 3);
+    let early_tsig = g.rng.chance(1, 5);
+    if g.rng.chance(1, 2) { g.header_op(); }
+    if early_edns { let p = g.rng.below(65536); g.push(format!("edns:{}", p)); }
+    if early_tsig { g.tsig_op(); }
+    let nq = match g.rng.below(10) { 0 => 0, 1 => 2, 2 => 3, _ => 1 };
+    for _ in 0..nq { if !g.dead { g.question(); } }
+    for _ in 0..sh.n_ops {
+        if g.dead { break; }
+        match g.rng.below(100) {
+            0..=59 => g.add_rr(),
+            60..=66 => g.header_op(),
+            67..=70 => g.xr_op(),
+            71..=73 => { let p = g.rng.below(65536); g.push(format!("edns:{}", p)); }
+            74..=75 => g.tsig_op(),
+            76..=79 => {
+                let v = match g.rng.below(4) { 0 => g.rng.below(sh.buflen + 40), 1 => g.rng.below(100), _ => g.rng.range(sh.limit.saturating_sub(60), sh.limit + 60) };
+                g.push(format!("lim:{}", v));
+            }
+            80..=82 => g.question(),
+            83..=85 => g.clear(),
+            86..=87 => { let m = *g.rng.pick(&["s", "c", "d"]); g.push(format!("m:{}", m)); }
+            88..=90 => {
+                let n = match g.rng.below(4) { 0 => g.rng.below(g.buflen + 1), 1 => g.buflen + g.rng.below(50), _ => g.buflen };
+                let r = g.push(format!("tpl:{}", n));
+                if r == "ok" { g.buflen = n; }
+            }
+            91 => {
+                let n = g.buflen;
+                let rng = &mut *g.rng;
+                let mac: Vec<u8> = (0..rng.below(33)).map(|_| rng.byte()).collect();
+                g.push(format!("tpls:{}:{}", n, hex(&mac)));
+            }
+            92 => { let rng = &mut *g.rng; let t: Vec<u8> = (0..6).map(|_| rng.byte()).collect(); g.push(format!("ut:{}", hex(&t))); }
+            _ => g.add_rr(),
+        }
+    }
+    let (st, msg, mac) = if g.dead {
+        (g.st.join(";"), "-".to_string(), "-".to_string())
+    } else {
+        match catch_unwind(AssertUnwindSafe(|| g.s.finish())) {
+            Ok(Some((msg, mac))) => { g.st.push("ok".into()); (g.st.join(";"), hex(&msg), mac.map_or("-".to_string(), |m| hex(&m))) }
+            _ => { g.st.push("panic".into()); (g.st.join(";"), "-".to_string(), "-".to_string()) }
+        }
+    };
+    let fin = if g.dead { String::new() } else if mac == "-" { "fin".to_string() } else { format!("fin:{}", mac) };
+    let mut ops = g.ops.join(";");
+    if !fin.is_empty() { if !ops.is_empty() { ops.push(';'); } ops.push_str(&fin); }
+    let head = format!("{} {} {} {} {}", sh.buflen, sh.limit, sh.mode, sh.fill, ops);
+    let res = format!("ok {} {} {}", st, msg, mac);
+    em.emit(&format!("w {}", head), &res);
+    stats.note(&g.ops, &g.st, &msg, sh);
+    if !sh.violate {
+        if let Some(l) = audit_line(&head, &res) { em.emit(&l, "ok"); }
+    }
+}
+
+#[derive(Default)]
+struct Stats {
+    sessions: u64,
+    ops: u64,
+    errs: std::collections::BTreeMap<String, u64>,
+    pointers: u64,
+    over_16k: u64,
+}
+
+impl Stats {
+    fn note(&mut self, ops: &[String], st: &[String], msg: &str, _sh: &Shape) {
+        self.sessions += 1;
+        self.ops += ops.len() as u64;
+        for (o, s) in ops.iter().zip(st.iter()) {
+            if s != "ok" && !s.starts_with("g=") {
+                let k = format!("{} {}", o.split(':').next().unwrap_or(""), s);
+                *self.errs.entry(k).or_insert(0) += 1;
+            }
+        }
+        // rough pointer count: "c0"-prefixed octet pairs are over-counted; informational only
+        if msg.len() > 2 * 16384 { self.over_16k += 1; }
+        let b = msg.as_bytes();
+        let mut i = 0;
+        while i + 1 < b.len() { if b[i] == b'c' && b[i + 1] == b'0' { self.pointers += 1; } i += 2; }
+    }
+}
+
+/// many tiny records to drive a section count to 65535 and beyond
+fn gen_count_session(rng: &mut Rng, em: &mut Emitter, which: usize) {
+    let per = 500usize;
+    let n_sets = 65535 / per + 2;
+    let buflen = 12 + 5 + (n_sets * per + 10) * 13 + 64;
+    let sec = ["ans", "nss", "ars"][which % 3];
+    let mut ops: Vec<String> = vec!["q:00:1:1".into()];
+    if which >= 3 { ops.push("edns:1232".into()); }
+    let mut total = 0usize;
+    let mut k = 0u32;
+    while total < 65535 + per {
+        let n = if total + per > 65535 && total < 65535 { 65535 - total - (which % 2) } else { per };
+        let n = n.max(1);
+        let rds: Vec<String> = (0..n).map(|i| format!("{:04x}", (i as u32 + 7 * k) & 0xffff)).collect();
+        ops.push(format!("{}:n:00:{}:1:{}:{}:-", sec, 65280 + (k % 3), k, rds.join(",")));
+        total += n;
+        k += 1;
+        if total == 65535 - (which % 2) {
+            // exactly at (or one below) the maximum: a single-record add, EDNS, then one more set
+            ops.push(format!("{}:n:00:99:1:5:abcd:-", &sec[..2]));
+            ops.push(format!("{}:n:00:99:1:5:abce:-", &sec[..2]));
+            ops.push("edns:512".into());
+            ops.push("g".into());
+        }
+    }
+    let _ = rng;
+    ops.push("fin".into());
+    let head = format!("{} {} d 0 {}", buflen, buflen, ops.join(";"));
+    let r = exec(buflen, buflen, "d", 0, &ops.join(";"));
+    em.emit(&format!("w {}", head), &r);
+    if let Some(l) = audit_line(&head, &r) { em.emit(&l, "ok"); }
+}
+
+/// many questions: QDCOUNT at its maximum
+fn gen_qcount_session(em: &mut Emitter) {
+    let n = 65537usize;
+    let buflen = 12 + n * 5 + 40;
+    let mut ops: Vec<String> = (0..n).map(|i| format!("q:00:{}:1", i % 65536)).collect();
+    ops.push("g".into());
+    ops.push("an:n:00:1:1:0:01020304:-".into());
+    ops.push("fin".into());
+    let head = format!("{} {} s 0 {}", buflen, buflen, ops.join(";"));
+    let r = exec(buflen, buflen, "s", 0, &ops.join(";"));
+    em.emit(&format!("w {}", head), &r);
+    if let Some(l) = audit_line(&head, &r) { em.emit(&l, "ok"); }
+}
+
+pub fn gen(rng: &mut Rng, thorough: bool, em: &mut Emitter) {
+    let mut stats = Stats::default();
+    // 0. fixed sessions: the unit tests' scenarios and the D07 witness
+    for (line, audit) in FIXED {
+        let a: Vec<&str> = line.split(' ').collect();
+        let r = run(a[0], &a[1..]).unwrap();
+        em.emit(line, &r);
+        if *audit {
+            if let Some(l) = audit_line(&line[2..], &r) { em.emit(&l, "ok"); }
+        }
+    }
+    // 1. ext-RCODE sweep (all values 0..4095 in thorough, a stride in quick; plus > 4095)
+    let stride = if thorough { 1 } else { 37 };
+    let mut vals: Vec<usize> = (0..=4095).step_by(stride).collect();
+    vals.extend_from_slice(&[15, 16, 2047, 2048, 2049, 4095, 4096, 4097, 65535]);
+    for v in vals {
+        let line = format!("w 64 64 s 0 edns:1232;xr:{};g;fin", v);
+        let a: Vec<&str> = line.split(' ').collect();
+        let r = run(a[0], &a[1..]).unwrap();
+        em.emit(&line, &r);
+        if let Some(l) = audit_line(&line[2..], &r) { em.emit(&l, "ok"); }
+    }
+    // 2. random sessions
+    let n = if thorough { 200_000 } else { 5_000 };
+    for i in 0..n {
+        let violate = i % 5 == 4;
+        let mode = match rng.below(10) { 0..=3 => "s", 4..=6 => "c", _ => "d" };
+        let n_ops = match rng.below(12) { 0 => rng.range(15, 40), 1 => 0, _ => rng.range(1, 10) };
+        // sizes: small enough that truncation happens at every kind of op
+        let (buflen, limit) = match rng.below(20) {
+            0 => (rng.below(14), rng.below(30)),
+            1 => (rng.range(12, 40), rng.range(12, 40)),
+            2 => (rng.range(500, 700), rng.range(12, 80)),
+            3 | 4 => { let b = rng.range(40, 200); (b, rng.range(12, b + 20)) }
+            5 | 6 | 7 => { let b = rng.range(100, 400); (b, rng.range(60, b + 20)) }
+            8 => (rng.range(512, 1500), 512),
+            _ => { let b = rng.range(200, 900); (b, b) }
+        };
+        let fill = *rng.pick(&[0u8, 0, 0xaa, 0xc0, 0xff, 0x3f, 1]);
+        let sh = Shape { buflen, limit, mode, fill, violate, n_ops };
+        gen_session(rng, &sh, em, &mut stats);
+    }
+    // 3. sessions that cross POINTER_MAX (0x3fff): a big TXT record first, names afterwards
+    let n_big = if thorough { 300 } else { 8 };
+    for i in 0..n_big {
+        let mode = ["s", "c", "d"][i % 3];
+        let pad = rng.range(16383 - 120, 16383 + 20) - 12 - 30;
+        let buflen = 16384 + rng.range(100, 1200);
+        let s = match Sess::new(buflen, buflen, mode, 0) { Ok(s) => s, Err(_) => continue };
+        let pool = Pool::new(rng);
+        let mut g = SessionGen { rng, pool, s, ops: vec![], st: vec![], tr: Track::default(), violate: false,
+                                 buflen, dead: false, section: 0 };
+        g.question();
+        let owner = g.pool.name(g.rng);
+        let filler: String = std::iter::repeat("61").take(pad).collect();
+        g.push(format!("an:n:{}:16:1:60:{}:-", hex(&owner), filler));
+        g.tr.owner = Some(owner);
+        g.section = 1;
+        for _ in 0..g.rng.range(4, 14) { if !g.dead { g.add_rr(); } }
+        if g.rng.chance(1, 2) { g.push("edns:4096".into()); }
+        let (st, msg, mac) = match catch_unwind(AssertUnwindSafe(|| g.s.finish())) {
+            Ok(Some((msg, mac))) if !g.dead => { g.st.push("ok".into()); (g.st.join(";"), hex(&msg), mac.map_or("-".to_string(), |m| hex(&m))) }
+            _ => { g.st.push("panic".into()); (g.st.join(";"), "-".to_string(), "-".to_string()) }
+        };
+        let head = format!("{} {} {} 0 {};fin", buflen, buflen, mode, g.ops.join(";"));
+        let res = format!("ok {} {} {}", st, msg, mac);
+        em.emit(&format!("w {}", head), &res);
+        let sh = Shape { buflen, limit: buflen, mode, fill: 0, violate: false, n_ops: 0 };
+        stats.note(&g.ops, &g.st, &msg, &sh);
+        if let Some(l) = audit_line(&head, &res) { em.emit(&l, "ok"); }
+    }
+    // 4. counts near 65535
+    let n_cnt = if thorough { 6 } else { 1 };
+    for i in 0..n_cnt { gen_count_session(rng, em, if thorough { i } else { 3 }); }
+    if thorough { gen_qcount_session(em); }
+    eprintln!(
+        "[g_writer] sessions={} ops={} pointer-ish octets={} sessions>16k={} failures={:?}",
+        stats.sessions, stats.ops, stats.pointers, stats.over_16k, stats.errs
+    );
+}
+
+/// fixed sessions (second field: emit a `waudit` line too)
+const FIXED: &[(&str, bool)] = &[
+    // D07 witness: ext-RCODE 2049 must survive (header RCODE 1, OPT TTL 0x80000000)
+    ("w 64 64 s 0 edns:1232;xr:2049;g;fin", true),
+    ("w 64 64 s 0 edns:1232;xr:4095;rc:3;g;fin", true),
+    ("w 64 64 s 0 xr:1;edns:0;edns:1;xr:4096;g;fin", true),
+    // writer.rs unit-test scenario: question + hinted answers
+    ("w 512 512 s 0 q:076578616d706c65047465737400:1:1;fin", true),
+    ("w 512 512 s 0 id:4660;qr:1;aa:1;q:03777777076578616d706c6503636f6d00:1:1;an:q:03777777076578616d706c6503636f6d00:1:1:3600:c0000201:-;ns:n:076578616d706c6503636f6d00:2:1:3600:036e7331076578616d706c6503636f6d00:0;ar:x0.0:036e7331076578616d706c6503636f6d00:1:1:3600:c0000202:-;g;fin", true),
+    // SRV / CH A / unknown type: names inside must stay uncompressed
+    ("w 512 512 s 0 q:076578616d706c6503636f6d00:33:1;an:q:076578616d706c6503636f6d00:33:1:5:000100020035076578616d706c6503636f6d00:-;an:o:076578616d706c6503636f6d00:1:3:5:076578616d706c6503636f6d000102:-;an:o:076578616d706c6503636f6d00:65280:1:5:076578616d706c6503636f6d00:-;an:o:076578616d706c6503636f6d00:2:1:5:076578616d706c6503636f6d00:-;fin", true),
+    // rollback: a record that does not fit leaves the message unchanged
+    ("w 60 60 s 0 q:076578616d706c6503636f6d00:1:1;an:q:076578616d706c6503636f6d00:16:1:5:0a61616161616161616161:-;an:q:076578616d706c6503636f6d00:16:1:5:1461616161616161616161616161616161616161616161:-;an:o:076578616d706c6503636f6d00:1:1:5:01020304:-;fin", true),
+    // TSIG unsigned, EDNS, clear_rrs, template
+    ("w 300 300 s 0 q:076578616d706c6503636f6d00:1:1;edns:1232;tsig:u.0b686d61632d73686132353600:036b6579076578616d706c6503636f6d00:0000632912b4:300:4660:0:0000632912b4;an:q:076578616d706c6503636f6d00:1:1:5:01020304:-;clr;ns:q:076578616d706c6503636f6d00:6:1:5:036e7331076578616d706c6503636f6d000a686f73746d6173746572076578616d706c6503636f6d000000000100000002000000030000000400000005:-;tpl:200;ar:n:036e7331076578616d706c6503636f6d00:1:1:5:01020304:-;g;fin", true),
+    ("w 300 300 c 0 q:076578616d706c6503636f6d00:1:1;tsig:u.0b686d61632d73686132353600:036b6579076578616d706c6503636f6d00:0000632912b4:300:4660:18:0000632912b5;an:q:074578614d706c6503636f6d00:1:1:5:01020304:-;fin", true),
+];
